@@ -1,4 +1,4 @@
-import BadgerProofs.Lemmas.LsmInv
+import BadgerProofs.Lemmas.LsmCompact
 /-!
 # C14 — the structural invariant of the LSM tree is preserved
 
@@ -30,5 +30,67 @@ theorem C14_flush_inv {s : Lsm} (h : LsmInv s) (id : Nat) : LsmInv (s.flush id) 
     | succ j =>
       simp at hp'
       exact h.level (i := j + 1) (by rw [hl]; simpa using hp')
+
+/-- (C) a well-formed compaction preserves the invariant — in particular C14 proper: on every
+    level `≥ 1` all versions of a user key live in one table. Needs that the implementation cut its
+    output tables only where the user key changes (`CutsAtKeyChange`, which `addKeys` guarantees and
+    the harness checks on every real compaction) and that versions fit a `uint64` (`VerBound`: the
+    overlap test widens the range to `key@MaxUint64 … key@0`). -/
+theorem C14_compact_inv {s s' : Lsm} {cd : CompactDef} {d n now : Nat} (h : LsmInv s) (hv : VerBound s)
+    (hc : CompactOk s cd) (hs : s.compact cd d n now = some s')
+    (hcut : ∀ new0, splitSizes cd.outSizes (compactOutput s cd d n now).1 = some new0 →
+      CutsAtKeyChange (withIds new0 cd.outIds)) : LsmInv s' := by
+  obtain ⟨new0, hsp, rfl⟩ := LL.compact_some hs
+  refine ⟨h.1, h.2.1, ?_, fun e he => h.2.2.2 e (LL.mem_allEntries_compact h hc hsp he)⟩
+  rintro ⟨i, tbls⟩ hp
+  have hi := (LL.mem_zipIdx _ _ _).mp hp
+  have hN := LL.cuts_pairwise (fun t ht => ((LL.new_tables h hc hsp).1 t ht).1) (LL.new_tables h hc hsp).2
+    (hcut new0 hsp)
+  exact LL.compact_levels h hv hc hsp LL.sepRel_keyLt (fun _ _ hab => hab) hN hi
+
+/-- versions stay within `uint64` -/
+theorem C14_compact_verBound {s s' : Lsm} {cd : CompactDef} {d n now : Nat} (h : LsmInv s) (hv : VerBound s)
+    (hc : CompactOk s cd) (hs : s.compact cd d n now = some s') : VerBound s' :=
+  LL.compact_verBound h hv hc hs
+
+/-- without the cut condition the levels are still sorted by internal key (enough for `get`) -/
+theorem C14_compact_inv_weak {s s' : Lsm} {cd : CompactDef} {d n now : Nat} (h : LsmInv s) (hv : VerBound s)
+    (hc : CompactOk s cd) (hs : s.compact cd d n now = some s') : LsmInvW s' :=
+  LL.compact_invW h hv hc hs
+
+/-- `CutsAtKeyChange` is needed: cutting the output in the middle of a user key puts two versions of
+    that key into different tables of level 1. -/
+def C14_cutState : Lsm :=
+  { mem := [], imm := [], levels := [[{ ents := [⟨[1], 2, 0, 0, 0, []⟩, ⟨[1], 1, 0, 0, 0, []⟩] }], []] }
+def C14_cutCd : CompactDef :=
+  { thisLevel := 0, nextLevel := 1, top := [0], bot := [], outSizes := [1, 1], dropPrefixes := [] }
+def C14_cutState' : Lsm :=
+  { mem := [], imm := [], levels := [[], [{ ents := [⟨[1], 2, 0, 0, 0, []⟩] }, { ents := [⟨[1], 1, 0, 0, 0, []⟩] }]] }
+
+theorem C14_cut_inside_key_breaks_inv :
+    LsmInv C14_cutState ∧ VerBound C14_cutState ∧ CompactOk C14_cutState C14_cutCd ∧
+      C14_cutState.compact C14_cutCd 0 2 0 = some C14_cutState' ∧ ¬ LsmInv C14_cutState' := by
+  refine ⟨by decide, by decide, by decide, ?_, by decide⟩
+  simp only [C14_cutState, C14_cutCd, C14_cutState']
+  lsm_eval
+
+/-! non-vacuity: an L0→L2 compaction with a non-empty bottom run -/
+def C14_exState : Lsm :=
+  { mem := [], imm := [],
+    levels := [[{ ents := [⟨[1], 3, 0, 0, 0, []⟩, ⟨[2], 2, 0, 0, 0, []⟩] }, { ents := [⟨[1], 4, 0, 0, 0, []⟩] }], [],
+               [{ ents := [⟨[1], 1, 0, 0, 0, []⟩] }, { ents := [⟨[3], 1, 0, 0, 0, []⟩] }]] }
+def C14_exCd : CompactDef :=
+  { thisLevel := 0, nextLevel := 2, top := [0], bot := [0], outSizes := [2, 1], dropPrefixes := [] }
+
+example : LsmInv C14_exState ∧ VerBound C14_exState ∧ CompactOk C14_exState C14_exCd := by decide
+def C14_exState' : Lsm :=
+  { mem := [], imm := [],
+    levels := [[{ ents := [⟨[1], 4, 0, 0, 0, []⟩] }], [],
+               [{ ents := [⟨[1], 3, 0, 0, 0, []⟩, ⟨[1], 1, 0, 0, 0, []⟩] }, { ents := [⟨[2], 2, 0, 0, 0, []⟩] },
+                { ents := [⟨[3], 1, 0, 0, 0, []⟩] }]] }
+example : C14_exState.compact C14_exCd 0 2 0 = some C14_exState' ∧ LsmInv C14_exState' := by
+  refine ⟨?_, by decide⟩
+  simp only [C14_exState, C14_exCd, C14_exState']
+  lsm_eval
 
 end Badger
